@@ -307,11 +307,23 @@ func (k *Kernel) apply(t *Task) {
 		c := r.dctx
 		k.ctxs = append(k.ctxs, c)
 		if r.d > 0 {
+			// timers that expire at the same instant fire in no particular order:
+			// half of the contexts expire after everything else due at that instant
+			// (sleeps that end, segments that arrive), so that code can run "at the
+			// deadline, before the context knows"
+			late := k.Draw(2) == 0
+			if late {
+				k.evseq += 1 << 40
+			}
 			k.After(r.d, "ctx-deadline", func() {
 				if c.fire(context.DeadlineExceeded) {
 					k.Fault("ctx_deadline")
 				}
 			})
+			if late {
+				k.evseq -= 1 << 40
+				k.Count("ctx_deadline_ordered_last")
+			}
 		}
 		k.complete(t, result{})
 	case opCtxCancel:
